@@ -25,7 +25,7 @@ def need_text(n):
     neg = "not " if n.get("neg") else ""
     t = n["t"]
     if t == "cmp":
-        s = "%s %s %s" % (n["path"], n["op"], lit(n["goal"]))
+        s = "%s%s %s %s" % ((n["field"] + " in ") if n.get("field") else "", n["path"], n["op"], lit(n["goal"]))
         if n.get("tol") is not None:
             s += " +- %s" % lit(n["tol"])
         return neg + s
@@ -97,6 +97,8 @@ def act_lines(a):
         return a["ctx"], "inc %s with %s" % (a["path"], lit(a["v"]))
     if k == "copy":
         return a["ctx"], "copy %s into %s" % (a["src"], a["path"])
+    if k == "copyf":     # several fields at once, positionally
+        return a["ctx"], "copy %s in %s into %s in %s" % (" ".join(a["sf"]), a["src"], " ".join(a["df"]), a["path"])
     if k == "set":
         return a["ctx"], "set %s with %s" % (a["path"], lit(a["v"]))
     if k == "rear":
@@ -115,7 +117,10 @@ def act_lines(a):
 def emit(program):
     out = ["house %s" % program.get("house", "h"), ""]
     for path, value in program.get("inits", []):
-        out.append("  init %s with %s" % (path, lit(value)))
+        if isinstance(value, dict):
+            out.append("  init %s with %s" % (path, " ".join("%s %s" % (k, lit(v)) for k, v in value.items())))
+        else:
+            out.append("  init %s with %s" % (path, lit(value)))
     for fr in program["framers"]:
         s = "  framer %s be %s" % (fr["name"], fr.get("sched", "active"))
         if fr.get("order"):
